@@ -101,9 +101,9 @@ def introspection_lemma(kind, params):
     """bounded/native: the lists the UI derives from the pattern are those it was built from"""
     def script(ctx):
         from openpectus.lang.exec.uod import RegexNamedArgumentParser
-        if kind == "number":
+        if kind in ("number", "number-optional"):
             units, = params
-            p = RegexNamedArgumentParser(_real("RegexNumber", units))
+            p = RegexNamedArgumentParser(_real("RegexNumber" if kind == "number" else "RegexNumberOptional", units))
             got = p.get_units()
             ctx.check_w("derived-unit-list-is-the-declared-one", z3.BoolVal(got == (units or [])), lambda m: {"declared": units, "derived": got}, "bounded-native")
         else:
@@ -148,6 +148,8 @@ for _e, _a in CAT_FAMILY:
 for _u in UNIT_FAMILY:
     LEMMAS.append((f"get_units(RegexNumber(units={_name(_u)}))", introspection_lemma("number", (_u,))))
     LEMMAS.append((f"groups(RegexNumber(units={_name(_u)}))", delivery_lemma(_u)))
+for _u in UNIT_FAMILY[:4]:
+    LEMMAS.append((f"get_units(RegexNumberOptional(units={_name(_u)}))", introspection_lemma("number-optional", (_u,))))
 for _e, _a in CAT_FAMILY:
     LEMMAS.append((f"get_options(RegexCategorical(exclusive={_name(_e)},additive={_name(_a)}))", introspection_lemma("cat", (_e, _a))))
 
